@@ -121,6 +121,7 @@ SeqsOver(A) == {<<a>> : a \in A} \cup {<<a, b>> : a \in A, b \in A}
 Seqs_0_1     == {<<0>>, <<1>>, <<0, 1>>}
 Seqs_0_1_100 == {<<0>>, <<1>>, <<100>>, <<0, 100>>, <<100, 1>>, <<0, 1>>, <<0, 100, 1>>}
 Seqs_0_3_100_101 == {<<0>>, <<3>>, <<100>>, <<101>>, <<0, 100>>, <<3, 100>>, <<3, 101>>, <<100, 0>>}
+Seqs_policy == {<<0>>, <<1>>, <<3>>, <<100>>, <<0, 100>>, <<100, 1>>, <<1, 100>>, <<3, 101>>}
 Seqs_0to5 == {<<0>>, <<1>>, <<2>>, <<3>>, <<4>>, <<5>>}
 
 =============================================================================
